@@ -235,14 +235,26 @@ func ruleTwinUpdate(names ...string) func(p *Prog, l *Ledger, tier string) {
 			if fn == nil {
 				continue
 			}
-			for _, b := range fn.Blocks {
-				var starts, ends []*ssa.Store
+			for _, b := range p.helperBlocks(fn) {
+				var starts, ends, both []*ssa.Store
 				for _, ins := range b.Instrs {
 					st, ok := ins.(*ssa.Store)
 					if !ok {
 						continue
 					}
 					t, f := fieldOfAddr(st.Addr)
+					if t == "" {
+						// one store through a table of field addresses ({&i.StartAt, &i.EndAt}): both boundaries
+						// receive the same expression by construction
+						var fs strset = strset{}
+						for _, lc := range locsOf(st.Addr, 0) {
+							fs.add(lc[0])
+						}
+						if fs["Item.StartAt"] && fs["Item.EndAt"] && len(fs) == 2 {
+							both = append(both, st)
+						}
+						continue
+					}
 					if t != "Item" {
 						continue
 					}
@@ -260,6 +272,11 @@ func ruleTwinUpdate(names ...string) func(p *Prog, l *Ledger, tier string) {
 					case "EndAt":
 						ends = append(ends, st)
 					}
+				}
+				if len(both) > 0 && len(starts) == 0 && len(ends) == 0 {
+					n++
+					l.Prove(rule, name, l.Key(rule, name, "twin", ""), p.Pos(both[0].Pos()), "StartAt and EndAt are updated by one store through a table of their addresses: the same expression by construction")
+					continue
 				}
 				if len(starts) == 0 && len(ends) == 0 {
 					continue
@@ -952,6 +969,15 @@ func isLoopBoundCond(c ssa.Value) bool {
 			base, _ := linear(side)
 			if call, ok := base.(*ssa.Call); ok {
 				if bi, ok := call.Call.Value.(*ssa.Builtin); ok && bi.Name() == "len" {
+					return true
+				}
+			}
+		}
+		// a range over an array of fixed size: rangeindex < constant
+		for _, pr := range [][2]ssa.Value{{x.X, x.Y}, {x.Y, x.X}} {
+			base, _ := linear(pr[0])
+			if ph, ok := base.(*ssa.Phi); ok && ph.Comment == "rangeindex" {
+				if _, isC := constInt(pr[1]); isC {
 					return true
 				}
 			}
